@@ -622,7 +622,7 @@ fn ipv6_part(ctx: &Ctx, res: &mut PartResult) {
 }
 
 fn parts(ctx: &Ctx) -> Vec<PartSpec> {
-    let b = if ctx.quick() { 50.0 } else { 1800.0 };
+    let b = if ctx.quick() { 150.0 } else { 1800.0 };
     let n = allowlists().len();
     let mut v = vec![PartSpec::new("matrix-no-allowlist", json!({"lists": "none"})).budget(b)];
     let chunk = if ctx.quick() { 3 } else { 2 };
